@@ -7,6 +7,8 @@ import (
 	"math/rand"
 	"runtime"
 	"sort"
+	"sync"
+	"sync/atomic"
 	"time"
 
 	"github.com/buzzfeed/sso/internal/pkg/singleflight"
@@ -40,7 +42,7 @@ type sfThread struct {
 type sfRun struct {
 	g       *singleflight.Group
 	thr     map[int]*sfThread
-	yielded chan string   // keys whose leader reached the yield
+	yielded chan string // keys whose leader reached the yield
 	resume  map[string]chan struct{}
 	window  bool
 }
@@ -261,6 +263,72 @@ func sfPrelude() [][]sfEv {
 	}
 }
 
+// sfStress: `callers` goroutines call Do for one key at the same instant, `rounds` times; the function counts how many
+// executions for that key are in flight at once. Reports the maximum seen and whether every caller got the value of an
+// execution that was running while it waited.
+func sfStress(idx, rounds, callers int) M {
+	g := &singleflight.Group{}
+	var inflight, maxIn, execs int64
+	var bad int64
+	firstBad := ""
+	var mu sync.Mutex
+	for r := 0; r < rounds; r++ {
+		key := "k"
+		if r%3 == 1 {
+			key = "UserGroups/x:y"
+		}
+		start := make(chan struct{})
+		var wg sync.WaitGroup
+		var roundExecs []int64
+		for c := 0; c < callers; c++ {
+			wg.Add(1)
+			go func() {
+				defer wg.Done()
+				<-start
+				v, _, err := g.Do(key, func() (interface{}, error) {
+					n := atomic.AddInt64(&inflight, 1)
+					for {
+						m := atomic.LoadInt64(&maxIn)
+						if n <= m || atomic.CompareAndSwapInt64(&maxIn, m, n) {
+							break
+						}
+					}
+					id := atomic.AddInt64(&execs, 1)
+					mu.Lock()
+					roundExecs = append(roundExecs, id)
+					mu.Unlock()
+					runtime.Gosched()
+					time.Sleep(20 * time.Microsecond)
+					atomic.AddInt64(&inflight, -1)
+					return id, nil
+				})
+				if err != nil {
+					atomic.AddInt64(&bad, 1)
+					return
+				}
+				got, _ := v.(int64)
+				mu.Lock()
+				ok := false
+				for _, id := range roundExecs {
+					if id == got {
+						ok = true
+					}
+				}
+				if !ok {
+					bad++
+					if firstBad == "" {
+						firstBad = fmt.Sprintf("round %d: a caller got the value of execution %d, which did not run in its round", r, got)
+					}
+				}
+				mu.Unlock()
+			}()
+		}
+		close(start)
+		wg.Wait()
+	}
+	return M{"e": "sf", "case": idx, "stress": M{"rounds": rounds, "callers": callers, "maxInflight": maxIn, "executions": execs, "strangers": bad, "first": firstBad}}
+}
+
 func init() {
 	engines["sf"] = func(rng *rand.Rand, n int, em *Emitter, replay []byte) {
 		runCase := func(idx int, evs []sfEv, gen func(r *sfRun, step int) (sfEv, bool)) {
@@ -304,6 +372,10 @@ func init() {
 			runCase(idx, evs, nil)
 			idx++
 		}
+		// callers released at the same instant, again and again: the arrivals the scheduled cases cannot place (several
+		// callers inside Do before any of them has registered the call)
+		em.Emit(sfStress(idx, 300+n/2, 32))
+		idx++
 		keys := []string{"a", "b", "UserGroups/x:y", "a/b"}
 		for k := 0; k < n; k++ {
 			nthr := 2 + rng.Intn(7)
